@@ -18,7 +18,7 @@ def race_stress(R):
     d = os.path.join(vp.scratch(), "race")
     os.makedirs(d, exist_ok=True)
     env = dict(vp.GOENV, GORACE="halt_on_error=0 exitcode=0 history_size=2", VERIF_C20_RACE="1")
-    rounds = 1 if R.tier == "quick" else 4
+    rounds = 1 if R.tier == "quick" else 2
     reports, total, wall = [], 0, 0.0
     for k in range(rounds):
         cmd = [hb, "-prop", "C20", "-seed", str(R.seed + 1000 + k), "-tier", R.tier, "-out", os.path.join(d, "cases.jsonl"),
